@@ -129,7 +129,8 @@ type replayCfg struct {
 	Prefixes  []string // watch prefix id -> relative raw prefix
 	CacheSize int
 	SeqDetail bool
-	SubCap    int // > 0: abstract subscriber buffer capacity, realised with filler batches
+	TsoDetail bool // tso.Commit in two steps (the sequencer also parks at tso.commit)
+	SubCap    int  // > 0: abstract subscriber buffer capacity, realised with filler batches
 	Timeout   time.Duration
 }
 
@@ -150,7 +151,7 @@ type rdOutcome struct {
 	kvs []interface{}
 }
 
-func parkLabels(seqDetail, watchers bool) func(string, string, uint64, uint64) bool {
+func parkLabels(seqDetail, watchers bool, tsoDetail ...bool) func(string, string, uint64, uint64) bool {
 	m := map[string]bool{
 		"deal": true, "kv.commit": true, "kv.get": true, "kv.iter": true, "notify": true,
 		"seq.poll": true, "retry.step": true, "retry.deal": true,
@@ -176,6 +177,10 @@ func parkLabels(seqDetail, watchers bool) func(string, string, uint64, uint64) b
 		}
 		if l == "watch.processed" && filler[proc] {
 			return false
+		}
+		if l == "tso.commit" {
+			// only the sequencer's calls are steps of the model (leader start-up and followers call Commit too)
+			return len(tsoDetail) > 0 && tsoDetail[0] && proc == "seq"
 		}
 		if l == "hub.delete" && strings.HasPrefix(proc, "hub.asyncdel") {
 			// a close handed to another goroutine is a separate, arbitrarily late step
@@ -293,6 +298,7 @@ type runState struct {
 	watch      map[string]*watchState
 	maxRev     uint64
 	compactors map[string]bool
+	panicked   bool
 	readers    map[string]bool
 	readN      map[string]int
 	readRes    map[string]rdOutcome
@@ -318,6 +324,16 @@ func (rs *runState) launchWriter(p string) error {
 		env.Sched.Register(p)
 		env.Rec.Log(gate.Event{"e": "Invoke", "p": p, "i": i + 1, "op": o.Type, "k": o.Key, "exp": gate.Clip(o.Exp), "v": o.Val})
 		close(started)
+		defer func() {
+			// a panic inside the code under test is an observation, not the end of the driver
+			if x := recover(); x != nil {
+				env.Rec.Log(gate.Event{"e": "Panic", "p": p, "i": i + 1, "op": o.Type, "msg": fmt.Sprint(x)})
+				rs.resMu.Lock()
+				rs.panicked = true
+				rs.resMu.Unlock()
+				env.Sched.Finish(p)
+			}
+		}()
 		r := callOp(env, o)
 		env.Rec.Log(gate.Event{"e": "Return", "p": p, "i": i + 1, "op": o.Type, "k": o.Key, "exp": gate.Clip(o.Exp), "v": o.Val,
 			"succ": r.Succ, "hdr": gate.Clip(r.Hdr), "kvrev": gate.Clip(r.KvRev), "kvval": r.KvVal, "err": r.Err})
@@ -342,6 +358,9 @@ func (rs *runState) stopsFor(s specStep) map[string]bool {
 	}
 	switch s.P {
 	case "seq":
+		if rs.cfg.TsoDetail {
+			return map[string]bool{"seq.poll": true, "seq.cacheadd": true, "tso.commit": true}
+		}
 		if rs.cfg.SeqDetail {
 			return map[string]bool{"seq.poll": true, "seq.cacheadd": true}
 		}
@@ -739,7 +758,7 @@ func (rs *runState) compareFinal() []string {
 func replayOne(cfg replayCfg, eng *kb.Engine, b *behaviour, rep *replayReport) []gate.Event {
 	keyNames := cfg.KeyNames[:len(b.KInit)]
 	hasWatchers := len(b.XReq) > 0 && b.XReq[0] == '{'
-	env := kb.NewEnv(kb.Options{Engine: eng, KeyNames: keyNames, Gated: true, Park: parkLabels(cfg.SeqDetail, hasWatchers),
+	env := kb.NewEnv(kb.Options{Engine: eng, KeyNames: keyNames, Gated: true, Park: parkLabels(cfg.SeqDetail, hasWatchers, cfg.TsoDetail),
 		Base: cfg.Base, CacheSize: cfg.CacheSize, Record: true})
 	defer env.Retire()
 	rs := &runState{cfg: cfg, env: env, b: b, opIdx: map[string]int{}, results: map[string][]opResult{}, watch: map[string]*watchState{}, compactors: map[string]bool{}, readers: map[string]bool{}, readN: map[string]int{}, readRes: map[string]rdOutcome{}}
@@ -868,6 +887,7 @@ func cmdReplay(args []string) int {
 	shards := fs.Int("shards", 1, "number of shards")
 	cache := fs.Int("cache", 0, "watch cache size (0 = default)")
 	seqDetail := fs.Bool("seqdetail", false, "cache insert is a separate sequencer step")
+	tsoDetail := fs.Bool("tsodetail", false, "tso.Commit is two sequencer steps (implies -seqdetail)")
 	base := fs.Uint64("base", 3, "base revision")
 	subcap := fs.Int("subcap", 0, "abstract subscriber buffer capacity (0 = no scaling)")
 	fs.Parse(args)
@@ -885,7 +905,7 @@ func cmdReplay(args []string) int {
 		return 2
 	}
 	defer eng.Close()
-	cfg := replayCfg{Engine: *engine, Base: *base, KeyNames: defaultKeyNames, Prefixes: defaultPrefixes, CacheSize: *cache, SeqDetail: *seqDetail, SubCap: *subcap, Timeout: 3 * time.Second}
+	cfg := replayCfg{Engine: *engine, Base: *base, KeyNames: defaultKeyNames, Prefixes: defaultPrefixes, CacheSize: *cache, SeqDetail: *seqDetail || *tsoDetail, TsoDetail: *tsoDetail, SubCap: *subcap, Timeout: 3 * time.Second}
 	rep := &replayReport{ActionCount: map[string]int{}, Engine: *engine}
 	start := time.Now()
 	w, err := os.Create(*out)
